@@ -531,12 +531,43 @@ func ruleR03_3(p *Program, r *Report) {
 		}
 		return true
 	}
+	// a mapping helper: a call-free function of the package whose every return is a non-nil error (the errno
+	// switch extracted into a function)
+	mapping := func(v ssa.Value) bool {
+		c, ok := v.(*ssa.Call)
+		if !ok {
+			return false
+		}
+		h := c.Common().StaticCallee()
+		if h == nil || h.Blocks == nil || h.Pkg != fn.Pkg || len(allCalls(h)) != 0 {
+			return false
+		}
+		n := 0
+		for _, b := range h.Blocks {
+			for _, in := range b.Instrs {
+				if ret, ok := in.(*ssa.Return); ok {
+					e := returnErr(ret)
+					if e == nil || p.mayBeNil(h, e, ret) {
+						return false
+					}
+					n++
+				}
+			}
+		}
+		return n > 0
+	}
 	bad := func(in ssa.Instruction) bool {
 		switch x := in.(type) {
 		case *ssa.Return:
 			e := returnErr(x)
+			if e != nil && mapping(e) {
+				return false
+			}
 			return e == nil || p.mayBeNilPhiAware(fn, e, x, edgeOK, asmCall)
 		case ssa.CallInstruction:
+			if v, ok := x.(ssa.Value); ok && mapping(v) {
+				return false
+			}
 			return x != ssa.CallInstruction(asmCall)
 		}
 		return false
@@ -547,6 +578,9 @@ func ruleR03_3(p *Program, r *Report) {
 			return false
 		}
 		e := returnErr(ret)
+		if e != nil && mapping(e) {
+			return true
+		}
 		return e != nil && !p.mayBeNilPhiAware(fn, e, ret, edgeOK, asmCall)
 	}
 	// the path must first establish errno != 0 and != endInput: require that the search is meaningful
